@@ -449,18 +449,45 @@ def _scribble(obj):
         obj.box[...] = obj.box * np.float32(2.0)
 
 
+_DECOY = {}
+
+
+def _new_file(fmt):
+    """An empty file object or - every fourth case - one that was parsed from an existing file whose block 'blk' holds
+    another structure (atom_site only: no box, no bonds) and has been looked at: set_structure() then replaces it."""
+    ctx = _CTXREF[0]
+    Fcls = pdbx.CIFFile if fmt == "cif" else pdbx.BinaryCIFFile
+    if ctx is None or (ctx.index or 0) % 4 != 3:
+        return Fcls()
+    if fmt not in _DECOY:
+        d = struc.AtomArray(2)
+        d.coord = np.array([[1, 2, 3], [4, 5, 6]], dtype=np.float32)
+        d.chain_id[:] = "D"; d.res_id[:] = [901, 902]; d.res_name[:] = "DCY"; d.atom_name[:] = ["D1", "D2"]; d.element[:] = "C"
+        g = Fcls()
+        pdbx.set_structure(g, d, data_block="blk")
+        if fmt == "cif":
+            _DECOY[fmt] = g.serialize()
+        else:
+            buf = io.BytesIO(); g.write(buf); _DECOY[fmt] = buf.getvalue()
+    f = pdbx.CIFFile.deserialize(_DECOY[fmt]) if fmt == "cif" else pdbx.BinaryCIFFile.read(io.BytesIO(_DECOY[fmt]))
+    if (ctx.index or 0) % 8 == 3:
+        _ = f["blk"]["atom_site"]["Cartn_x"].as_array(float)      # parts of the old content were accessed before
+    ctx.op("set_structure_into_parsed_file")
+    return f
+
+
 def write_read(fmt, obj, extra, include_bonds, scribble=False):
     """set_structure -> bytes/text -> parse again.  Returns the freshly parsed file object."""
     if scribble:
         obj = obj.copy()
     if fmt == "cif":
-        f = pdbx.CIFFile()
+        f = _new_file("cif")
         pdbx.set_structure(f, obj, **_dd(dict(data_block="blk", include_bonds=include_bonds, extra_fields=extra), _SET_DEFAULTS))
         if scribble:
             _scribble(obj)
         text = f.serialize()
         return pdbx.CIFFile.deserialize(text)
-    f = pdbx.BinaryCIFFile()
+    f = _new_file("bcif")
     pdbx.set_structure(f, obj, **_dd(dict(data_block="blk", include_bonds=include_bonds, extra_fields=extra), _SET_DEFAULTS))
     if scribble:
         _scribble(obj)
@@ -771,10 +798,55 @@ def case_altloc(rng, ctx):
         ctx.fail("altloc_invalid_rejected", "altloc='nonsense' accepted")
 
 
+def case_giant_residue(rng, ctx):
+    """One residue with more atoms than 16 bits count (a nanoparticle / coarse-grained sheet stored as one component):
+    intra-residue bonds are written by atom name and found again by position inside the residue."""
+    n = int(rng.choice([32767, 32769, 33000, 40000]))
+    a = struc.AtomArray(n)
+    a.coord = rng.uniform(-90, 90, size=(n, 3)).astype(np.float32)
+    a.chain_id[:] = "A"
+    a.res_id[:] = 1
+    a.res_name[:] = "BIG"
+    a.atom_name = np.array(["Z" + np.base_repr(i, 36) for i in range(n)])
+    a.element[:] = "C"
+    lo = max(n - 7300, 0)
+    pairs = np.concatenate([rng.integers(lo, n, size=(120, 2)), rng.integers(0, n, size=(60, 2)),
+                            np.array([[n - 1, n - 2], [0, n - 1], [32766 % n, 32767 % n]])])
+    pairs = pairs[pairs[:, 0] != pairs[:, 1]]
+    arr = np.concatenate([pairs, rng.integers(1, 4, size=(len(pairs), 1))], axis=1).astype(np.int64)
+    a.bonds = struc.BondList(n, arr)
+    want = {(int(i), int(j), int(t)) for i, j, t in a.bonds.as_array()}
+    fmt = str(rng.choice(["cif", "bcif"]))
+    ctx.log({"giant_residue": n, "format": fmt, "bonds": int(len(want))})
+    ctx.op("giant_residue_" + fmt)
+    ctx.mark_nontrivial()
+    Fcls = pdbx.CIFFile if fmt == "cif" else pdbx.BinaryCIFFile
+    f = Fcls()
+    pdbx.set_structure(f, a, data_block="blk", include_bonds=True)
+    if fmt == "cif":
+        g = pdbx.CIFFile.deserialize(f.serialize())
+    else:
+        buf = io.BytesIO(); f.write(buf); buf.seek(0)
+        g = pdbx.BinaryCIFFile.read(buf)
+    got = pdbx.get_structure(g, model=1, include_bonds=True)
+    ctx.oracle("roundtrip_fields")
+    if got.array_length() != n or not np.array_equal(got.atom_name, a.atom_name) or not np.array_equal(got.coord, a.coord):
+        ctx.fail("roundtrip_fields", "%s, one residue of %d atoms: atoms/coordinates differ after the round trip" % (fmt, n))
+    ctx.oracle("roundtrip_bonds")
+    have = {(int(i), int(j), int(t)) for i, j, t in got.bonds.as_array()} if got.bonds is not None else None
+    if have != want:
+        miss = sorted(want - (have or set()))[:4]
+        extra = sorted((have or set()) - want)[:4]
+        ctx.fail("roundtrip_bonds", "%s, one residue of %d atoms: typed bond set differs: missing %s, unexpected %s" % (fmt, n, miss, extra))
+    ctx.state(("giant_residue", n, fmt))
+
+
 def run_case(stratum, rng, ctx):
     if stratum == "roundtrip":
         return case_roundtrip(rng, ctx, False)
     if stratum == "roundtrip_bonds":
+        if ctx.index % 500 == 250:
+            return case_giant_residue(rng, ctx)
         return case_roundtrip(rng, ctx, True)
     if stratum == "model_select":
         return case_model_select(rng, ctx)
